@@ -7,6 +7,11 @@ fn to_ase(e: std::io::Error) -> AsepriteParseError {
     e.into()
 }
 
+// Upper bound for buffer capacity that is reserved based on a size declared in
+// the file before the corresponding data has actually been read. Buffers grow
+// beyond this as data arrives.
+pub(crate) const MAX_PREALLOCATION: usize = 1 << 20;
+
 pub(crate) struct AseReader<T: Read> {
     input: T,
 }
@@ -64,7 +69,7 @@ where
     }
 
     pub(crate) fn take_bytes(self, limit: usize) -> Result<Vec<u8>> {
-        let mut output = Vec::with_capacity(limit);
+        let mut output = Vec::with_capacity(limit.min(MAX_PREALLOCATION));
         self.input.take(limit as u64).read_to_end(&mut output)?;
         if output.len() != limit {
             Err(AsepriteParseError::InvalidInput(format!(
@@ -79,7 +84,7 @@ where
 
     pub(crate) fn unzip(self, expected_output_size: usize) -> Result<Vec<u8>> {
         let mut decoder = ZlibDecoder::new(self.input);
-        let mut buffer = Vec::with_capacity(expected_output_size);
+        let mut buffer = Vec::with_capacity(expected_output_size.min(MAX_PREALLOCATION));
         decoder.read_to_end(&mut buffer)?;
         if buffer.len() != expected_output_size {
             Err(AsepriteParseError::InvalidInput(format!(
